@@ -1,8 +1,16 @@
 """C11 — see DESIGN.md §4."""
-from ..spec import run_specs
+from ..spec import run_specs, k1_pairing, size_vs_write, extract
+from ..specs_registry import SPECS
 
 EXPLANATION = 'Per write::AttributeValue variant: form/size/write fingerprints equal the reviewed table and the size model equals the emitted bytes (bag equality); fix-ups are pushed immediately before a same-size placeholder. Forest equality after reading back is NOT decided.'
 
+S = {s['id']: s for s in SPECS}
+
 
 def run(rep, ctx):
+    g = ctx.g
     run_specs(rep, ctx, 'C11')
+    forms = extract(g, S['w_attr_form'])
+    k1_pairing(rep, g, 'K1-attr', S['w_attr_write'], [S['attr_parse']], 'DW_FORM_', strip_opcode=False, consts_from=forms)
+    rep.rule('S-attr', 'size model == emission: per write::AttributeValue variant the set of byte bags AttributeValue::size returns equals the set of bags AttributeValue::write emits')
+    size_vs_write(rep, g, 'S-attr', S['w_attr_size'], S['w_attr_write'])
